@@ -59,9 +59,10 @@ def tag(rnd, name=None, kind=None):
 
 ATTR_NAMES = ["class", "id", "style", "align", "colspan", "rowspan", "width", "height", "lang", "name", "group", "dir", "border",
               "title", "perrow", "widths", "start", "value", "type", "cellspacing"]
-ATTR_VALUES = ["2007", "3", "-1", "0", "1.5", "", "\u00b2", "x y", "a:b", "1e3", "99999999999999999999", "0x10", "\u0663", " 7 ",
+HUGE_INT = "9" * 4301          # more digits than int() converts (sys.get_int_max_str_digits)
+ATTR_VALUES = [HUGE_INT, "2007", "3", "-1", "0", "1.5", "", "\u00b2", "x y", "a:b", "1e3", "99999999999999999999", "0x10", "\u0663", " 7 ",
                "true", "None", "%", "50%", "1px", "#", "{{{1}}}", "&#50;"]
-IMG_OPTS = ["200px", "x200px", "100x200px", "1x2x3px", "xxpx", "0px", "99999999999px", "px", "-5px", "200 px", "upright=1.2",
+IMG_OPTS = [HUGE_INT + "px", "x" + HUGE_INT + "px", "200px", "x200px", "100x200px", "1x2x3px", "xxpx", "0px", "99999999999px", "px", "-5px", "200 px", "upright=1.2",
             "upright", "upright=x", "border", "frameless", "frame", "thumb", "thumbnail=x.png", "link=", "link=http://e.org", "alt=x",
             "page=2", "page=x", "lang=de", "class=3", "left", "none", "center", "baseline", "sub", "200px|300px", "x", ""]
 
